@@ -229,13 +229,15 @@ def case_docs(names, r):
         if bareable and qa == qb:
             qb = qb ^ {r.choice(bareable)}
         fq = tuple(sorted(i for i in bareable if r.random() < 0.5))
+        # sibling names that cannot collide with a generated segment
+        sib_a, sib_b = [x for x in ("sib0", "sib1", "sib2", "sib3") if x not in names][:2]
         docs.append(("pre-attrpath", "{ " + spell(names, qa) + " = 0; }", fq))
         pre = list(names[:-1])
-        docs.append(("pre-attrpath-sibling", "{ " + spell(pre + ["sib0"], qa) + " = 0; " + spell(names, qb) + " = 0; }", fq))
-        docs.append(("pre-family-only", "{ " + spell(pre + ["sib0"], qa) + " = 0; " + spell(pre + ["sib1"], qb) + " = 0; }", fq))
+        docs.append(("pre-attrpath-sibling", "{ " + spell(pre + [sib_a], qa) + " = 0; " + spell(names, qb) + " = 0; }", fq))
+        docs.append(("pre-family-only", "{ " + spell(pre + [sib_a], qa) + " = 0; " + spell(pre + [sib_b], qb) + " = 0; }", fq))
         # the first segment written once as an explicit set and then extended by the dotted binding (valid Nix, common in
         # NixOS configurations: `boot = { … }; boot.kernelParams = …;`)
-        docs.append(("pre-explicit-then-dotted", "{ " + spell(names[:1], qa) + " = { sib0 = 0; }; " + spell(names, qb) + " = 0; }", fq))
+        docs.append(("pre-explicit-then-dotted", "{ " + spell(names[:1], qa) + " = { " + sib_a + " = 0; }; " + spell(names, qb) + " = 0; }", fq))
         nested = "0"
         for i in range(len(names) - 1, -1, -1):
             nested = "{ " + spell([names[i]], {0} if i in qa else set()) + " = " + nested + "; }"
